@@ -15,7 +15,9 @@ RULE = (
     "rendered from hand-written column tables; FCHK with Gaussian's widths E22.15 / 6I12 / 5E16.8 and array lengths around "
     "every multiple of 5 and 6; Cube as I5,4F12.6 / 6E13.5 with rows of length 1..25) and by an independent Python writer "
     "(spec-writers-agree), then read by iodata.api.load_one: spec-load:<fmt> requires the re-quantised result to equal the "
-    "model; load-spec:<fmt> compares it with the Lean reader model. spec-py:<fmt> (GRO, MOL2, extended XYZ with Lattice / "
+    "model; load-spec:<fmt> compares it with the Lean reader model (xyz, sdf, pdb incl. multi-line TITLE/COMPND, mol2, "
+    "gro with precisions 1-6, residue numbers up to 99999, touching fields, with/without velocities, 3- and 9-number "
+    "boxes; cube; fchk). spec-py:<fmt> (GRO, MOL2, extended XYZ with Lattice / "
     "Properties / energy): Python spec writer only, result compared with the model. non-trivial = distinct file"
 )
 TRUSTED = [
@@ -23,6 +25,8 @@ TRUSTED = [
     "the hand-written spec column tables in lean/Iodata/Model/Fmt/*.lean and the Python spec writers in _adapters.py "
     "(cross-checked against each other byte for byte on every case)",
     "lean/Iodata/Drv/Fmt.lean: hex and object (de)coding, splitting of file bytes into lines",
+    "harness/vh/props/_gro.py, _mol2.py, _cube.py, _fchk.py: spec object generators, independent Python spec writers, "
+    "exact re-quantisation of the loaded values",
 ]
 ASSUMPTIONS = [
     "text-mode I/O: files contain printable ASCII, tabs and '\\n' only",
